@@ -16,9 +16,14 @@ import ICal.Driver.BodiesParser
 import ICal.Driver.BodiesLine
 import ICal.Driver.BodiesFold
 import ICal.Driver.BodiesText
+import ICal.Driver.BodiesAlarm
+import ICal.Driver.BodiesWalk
+import ICal.Driver.BodiesSer
+import ICal.Driver.BodiesCDict
+import ICal.Driver.BodiesSE
 open ICal.Driver
 
-def handlers : List (String → List String → Option String) := [handleText, handleFold, handleLine, handleTree, handleStartEnd, handleCodec, handleCDict, handleWalk, handleTz, handleAlarm, handleRecur, handleEncode, handleZoned, handleBodies, handleBodiesParser, handleBodiesLine, handleBodiesFold, handleBodiesText]
+def handlers : List (String → List String → Option String) := [handleText, handleFold, handleLine, handleTree, handleStartEnd, handleCodec, handleCDict, handleWalk, handleTz, handleAlarm, handleRecur, handleEncode, handleZoned, handleBodies, handleBodiesParser, handleBodiesLine, handleBodiesFold, handleBodiesText, handleBodiesAlarm, handleBodiesWalk, handleBodiesSer, handleBodiesCDict, handleBodiesSE]
 
 def step (line : String) : String :=
   let l := line.dropRightWhile (fun c => c == (Char.ofNat 10) || c == (Char.ofNat 13))
